@@ -1,7 +1,7 @@
 --------------------------- MODULE MC_ThriftSelf ---------------------------
 EXTENDS Naturals, Sequences, SequencesExt, TLC, ThriftCompact
 VARIABLE st
-Styles == [longField : BOOLEAN, longList : BOOLEAN, padVarint : BOOLEAN, falseByte : {0, 2}]
+Styles == [longField : BOOLEAN, longList : BOOLEAN, padVarint : BOOLEAN, falseByte : {0, 2}, padInts : BOOLEAN]
 Sample ==
   Struct(<< F(1, I(1)), F(2, INeg(5)), F(3, Bool(TRUE)), F(4, Bool(FALSE)),
             F(7, [t |-> "i64", v |-> <<0,0,0,0,0,0,0,128>>]),
